@@ -5,6 +5,8 @@ import (
 	"math"
 	"math/rand/v2"
 	"os"
+	"sync"
+	"sync/atomic"
 	"time"
 	"unsafe"
 
@@ -366,6 +368,76 @@ func c19checkWrite(c *core.Ctx, cc c19codec, t time.Time) {
 	}
 }
 
+// c19shared: the codecs are shared values; eight goroutines decode their own day counts and stored integers through
+// them at the same time (private read buffers and destinations) and every result is the instant the
+// specification assigns to *that* integer, as in the sequential sweeps.
+func c19shared(c *core.Ctx, r *rand.Rand) {
+	const G, N = 8, 16000
+	type bad struct {
+		name string
+		v    int64
+		got  time.Time
+		want time.Time
+		err  error
+	}
+	var mu sync.Mutex
+	var first *bad
+	var wg sync.WaitGroup
+	var ready atomic.Int32
+	seeds := make([]uint64, G)
+	for g := range seeds {
+		seeds[g] = r.Uint64()
+	}
+	for g := 0; g < G; g++ {
+		wg.Add(1)
+		go func(g int) {
+			defer wg.Done()
+			gr := rand.New(rand.NewPCG(seeds[g], uint64(g)))
+			rb := avro.NewReadBuf(nil)
+			ready.Add(1)
+			for ready.Load() < G {
+			}
+			for k := 0; k < N; k++ {
+				cc := c19codecs[(g+k)%4]
+				if k < N/2 {
+					cc = c19codecs[(g+k/512)%4] // runs through one codec
+				}
+				var v int64
+				var want time.Time
+				if cc.mult == 0 {
+					v = int64(g)*100000 + int64(gr.IntN(90000)) - 400000
+					if k < N/2 {
+						v = int64(g)*100000 - 400000 + int64(k/64)%3 // rows clustered by date: runs of one day
+					}
+					want = time.Unix(v*86400, 0).UTC()
+				} else {
+					v = (int64(gr.Uint64()>>24) - 1<<38) + int64(g)
+					want = time.Unix(0, v*cc.mult).UTC()
+				}
+				var buf [12]byte
+				rb.Reset(refavro.AppendLong(buf[:0], v))
+				var rec c19Rec
+				err := cc.codec.Read(rb, unsafe.Pointer(&rec))
+				if err != nil || !rec.T.Equal(want) {
+					mu.Lock()
+					if first == nil {
+						first = &bad{cc.name, v, rec.T, want, err}
+					}
+					mu.Unlock()
+					return
+				}
+			}
+		}(g)
+	}
+	wg.Wait()
+	c.Eval(G * N)
+	c.Count("shared-codec-decodes", G*N)
+	if first != nil {
+		c.Violate("long-decode", fmt.Sprintf("with %d goroutines decoding through the shared %s codec at the same time, %d decodes to %s err=%v, specification: %s", G, first.name, first.v,
+			first.got.UTC().Format(time.RFC3339Nano), first.err, first.want.Format(time.RFC3339Nano)), map[string]any{"value": first.v})
+	}
+}
+
 func runC19(c *core.Ctx, i int) {
 	if c19rb == nil {
 		c19setup(c)
@@ -422,6 +494,7 @@ func runC19(c *core.Ctx, i int) {
 			c19checkPositions(c, r)
 		}
 		c19dateEdges(c, dateC, r, 2000)
+		c19shared(c, r)
 		for _, cc := range c19codecs[1:] {
 			if i == nDateChunks {
 				for _, b := range varintBoundaries() {
